@@ -114,6 +114,18 @@ func ConcretizeNum(n J, rep int) cty.Value {
 		if f == nil {
 			panic("unknown landmark " + asS(l))
 		}
+		// the same number at several mantissa precisions, where it is exactly representable
+		switch rep % 3 {
+		case 1:
+			g := new(big.Float).SetPrec(f.MinPrec() + 11).Set(f)
+			if g.Cmp(f) == 0 {
+				return cty.NumberVal(g)
+			}
+		case 2:
+			if x, acc := f.Float64(); acc == big.Exact {
+				return cty.NumberFloatVal(x)
+			}
+		}
 		return cty.NumberVal(new(big.Float).Copy(f))
 	}
 	if d, ok := n["dec"]; ok {
